@@ -59,12 +59,15 @@ def estimates(kind, df, meta, names=None):
     rhs = rename(meta['rhs'], names)
     arhs = A + ' + ' + rhs
     binary = meta['outcome'] == 'binary'
+    pk = ec.should_poke(df)       # displays / diagnostics / plots between specification and fit() on half the frames
     if kind == 'IPTW':
         o = IPTW(df, A, Y)
         o.treatment_model(rhs, print_results=False)
         if o._miss_flag:
             o.missing_model(arhs, print_results=False)
         o.marginal_structural_model(A)
+        if pk:
+            ec.poke(o)
         o.fit()
         t = o.risk_difference['RD'] if binary else o.average_treatment_effect['ATE']
         return [float(t.iloc[1])], o.df
@@ -74,6 +77,8 @@ def estimates(kind, df, meta, names=None):
         if o._miss_flag:
             o.missing_model(arhs, print_results=False)
         o.outcome_model(arhs, print_results=False)
+        if pk:
+            ec.poke(o)
         o.fit()
         return [float(o.risk_difference if binary else o.average_treatment_effect),
                 float(o.risk_difference_se if binary else o.average_treatment_effect_se)], o.df
@@ -83,14 +88,20 @@ def estimates(kind, df, meta, names=None):
         if o._miss_flag:
             o.missing_model(arhs, print_results=False)
         o.outcome_model(arhs, print_results=False)
+        if pk:
+            ec.poke(o)
         o.fit()
         return [float(o.risk_difference if binary else o.average_treatment_effect),
                 float(o.risk_difference_se if binary else o.average_treatment_effect_se)], o.df
     if kind == 'TimeFixedGFormula':
         o = TimeFixedGFormula(df, A, Y, outcome_type='binary' if binary else 'normal')
         o.outcome_model(arhs, print_results=False)
+        if pk:
+            ec.poke(o)
         o.fit('all')
         r1 = float(o.marginal_outcome)
+        if pk:
+            ec.poke(o)
         o.fit('none')
         return [r1, float(o.marginal_outcome), float(len(o.gf))], o.gf
     if kind == 'GEstimationSNM':
@@ -99,17 +110,23 @@ def estimates(kind, df, meta, names=None):
         o.structural_nested_model(A)
         if o._miss_flag:
             o.missing_model(arhs, print_results=False)
+        if pk:
+            ec.poke(o)
         o.fit()
         return [float(x) for x in o.psi], o.df
     if kind == 'StochasticIPTW':
         o = StochasticIPTW(df, A, Y)
         o.treatment_model(rhs, print_results=False)
+        if pk:
+            ec.poke(o)
         o.fit(p=0.4)
         return [float(o.marginal_outcome)], o.df
     if kind == 'StochasticTMLE':
         o = StochasticTMLE(df, A, Y)
         o.exposure_model(rhs)
         o.outcome_model(arhs)
+        if pk:
+            ec.poke(o)
         o.fit(p=1.0, samples=3, seed=5)
         return [float(o.marginal_outcome)], o.df
     raise AssertionError(kind)
